@@ -7,6 +7,7 @@ REGISTRY = {
     'C03': ('sim.props.c03', 'C03'),
     'C06': ('sim.props.c06', 'C06'),
     'C08': ('sim.props.c08', 'C08'),
+    'C10': ('sim.props.c10', 'C10'),
     'C13': ('sim.props.c13', 'C13'),
     'C20': ('sim.props.c20', 'C20'),
 }
